@@ -162,6 +162,15 @@ def run(t, budget=1.0):
                     if family == "hostile":
                         continue
                     oc = "SEGV"   # without hostile header values no pointer can wrap: an ordinary verdict
+                if oc == "SEGV" and family == "hostile":
+                    # same for a wrapped pointer that lands just below the buffer (in the leading guard page): below p, not
+                    # "at or beyond p+n"
+                    try:
+                        if int(resp.split(" ")[1]) < -n:
+                            res.cls("inconclusive_fault_below_the_buffer")
+                            continue
+                    except (IndexError, ValueError):
+                        pass
                 if oc == "OK" and "view extends past the buffer" in resp:
                     pc.fail("unchecked-view-extent:%s" % cmd.replace(" ", "-"), entry,
                             {"cmd": line, "config": cfg, "n": n, "full": full, "expect": "OK-or-ASSERT", "actual": resp[:300]},
